@@ -1319,51 +1319,60 @@ class Message(ABC):
         self._serialized_on_wire = True
         proto_meta = self._betterproto
         read = 0
+        if size == 0:
+            # An empty message: do not consume anything that follows it.
+            return self
         for parsed in load_fields(stream):
             field_name = proto_meta.field_name_by_number.get(parsed.number)
             if not field_name:
                 self._unknown_fields += parsed.raw
-                continue
+            else:
+                meta = proto_meta.meta_by_field_name[field_name]
 
-            meta = proto_meta.meta_by_field_name[field_name]
-
-            value: Any
-            if parsed.wire_type == WIRE_LEN_DELIM and meta.proto_type in PACKED_TYPES:
-                # This is a packed repeated field.
-                pos = 0
-                value = []
-                while pos < len(parsed.value):
-                    if meta.proto_type in (TYPE_FLOAT, TYPE_FIXED32, TYPE_SFIXED32):
-                        decoded, pos = parsed.value[pos : pos + 4], pos + 4
-                        wire_type = WIRE_FIXED_32
-                    elif meta.proto_type in (TYPE_DOUBLE, TYPE_FIXED64, TYPE_SFIXED64):
-                        decoded, pos = parsed.value[pos : pos + 8], pos + 8
-                        wire_type = WIRE_FIXED_64
-                    else:
-                        decoded, pos = decode_varint(parsed.value, pos)
-                        wire_type = WIRE_VARINT
-                    decoded = self._postprocess_single(
-                        wire_type, meta, field_name, decoded
+                value: Any
+                if (
+                    parsed.wire_type == WIRE_LEN_DELIM
+                    and meta.proto_type in PACKED_TYPES
+                ):
+                    # This is a packed repeated field.
+                    pos = 0
+                    value = []
+                    while pos < len(parsed.value):
+                        if meta.proto_type in (TYPE_FLOAT, TYPE_FIXED32, TYPE_SFIXED32):
+                            decoded, pos = parsed.value[pos : pos + 4], pos + 4
+                            wire_type = WIRE_FIXED_32
+                        elif meta.proto_type in (
+                            TYPE_DOUBLE,
+                            TYPE_FIXED64,
+                            TYPE_SFIXED64,
+                        ):
+                            decoded, pos = parsed.value[pos : pos + 8], pos + 8
+                            wire_type = WIRE_FIXED_64
+                        else:
+                            decoded, pos = decode_varint(parsed.value, pos)
+                            wire_type = WIRE_VARINT
+                        decoded = self._postprocess_single(
+                            wire_type, meta, field_name, decoded
+                        )
+                        value.append(decoded)
+                else:
+                    value = self._postprocess_single(
+                        parsed.wire_type, meta, field_name, parsed.value
                     )
-                    value.append(decoded)
-            else:
-                value = self._postprocess_single(
-                    parsed.wire_type, meta, field_name, parsed.value
-                )
 
-            try:
-                current = getattr(self, field_name)
-            except AttributeError:
-                current = self._get_field_default(field_name)
-                setattr(self, field_name, current)
+                try:
+                    current = getattr(self, field_name)
+                except AttributeError:
+                    current = self._get_field_default(field_name)
+                    setattr(self, field_name, current)
 
-            if meta.proto_type == TYPE_MAP:
-                # Value represents a single key/value pair entry in the map.
-                current[value.key] = value.value
-            elif isinstance(current, list) and not isinstance(value, list):
-                current.append(value)
-            else:
-                setattr(self, field_name, value)
+                if meta.proto_type == TYPE_MAP:
+                    # Value represents a single key/value pair entry in the map.
+                    current[value.key] = value.value
+                elif isinstance(current, list) and not isinstance(value, list):
+                    current.append(value)
+                else:
+                    setattr(self, field_name, value)
 
             # If we have now loaded the expected length of the message, stop
             if size is not None:
